@@ -10,13 +10,17 @@
    and lists a result for every configured job (SystemComplete.v; "fault-free" is the executable
    predicate SystemFault.fault_free, evaluated by the check on every impl trace of its fault-free
    modes, so the hypothesis is one that real runs are seen to satisfy).
+   (4) independence at system level: every row a fault-free run records is consistent with the job
+   graph (SystemOutcome.v), a consistent assignment is unique on an acyclic graph, hence two fault-free
+   runs of the same job graph - with ANY batching parameters, groups, node limits, numbers of rounds
+   and interleavings - that reach their summaries report exactly the same results, one per job.
    NOT PROVED in Coq: that a run reaches the summary at all (termination of the real processes; the
    acceptor has no scheduling) and local mode (no batches; outside the system model) - decided on impl
    by the oracles over all explored schedules.  Still stated as partial in MANIFEST.json. *)
 From Coq Require Import List ZArith NArith Bool.
 From Jade Require Import Base.
 From Jade Require Cancel CancelProofs.
-From Jade Require System SystemMonitors SystemTheorems SystemFault SystemComplete.
+From Jade Require System SystemMonitors SystemTheorems SystemFault SystemComplete SystemOutcome.
 From Jade.Props Require SysExamples.
 Import ListNotations.
 
@@ -71,3 +75,23 @@ Proof.
   destruct Hj as [<-|[<-|[<-|[]]]]; vm_compute in Hd; try contradiction.
   destruct Hd as [<-|[]]. split; [vm_compute; auto|vm_compute; auto].
 Qed.
+
+(* every row of a fault-free run is consistent with the dependency graph and the exit codes *)
+Theorem c03_rows_consistent : forall sc tr s, SystemComplete.acyclic sc -> SystemComplete.nodes_ok sc ->
+  System.run sc tr = Some s -> SystemFault.fault_free sc System.init tr = true ->
+  SystemOutcome.consistent sc (System.rows s).
+Proof. exact SystemOutcome.rows_consistent. Qed.
+Print Assumptions c03_rows_consistent.
+
+(* the full statement for the system model: same job graph (dependencies, flags, exit codes), arbitrary other
+   parameters and schedules => the same final results, nothing missing *)
+Theorem c03_final_results_independent : forall sc1 sc2 tra1 p1 res1 miss1 trb1 s1 tra2 p2 res2 miss2 trb2 s2,
+  SystemComplete.acyclic sc1 -> SystemComplete.acyclic sc2 -> SystemComplete.nodes_ok sc1 -> SystemComplete.nodes_ok sc2 ->
+  SystemOutcome.same_graph sc1 sc2 ->
+  System.run sc1 (tra1 ++ System.ESummary p1 res1 miss1 :: trb1) = Some s1 ->
+  SystemFault.fault_free sc1 System.init (tra1 ++ System.ESummary p1 res1 miss1 :: trb1) = true ->
+  System.run sc2 (tra2 ++ System.ESummary p2 res2 miss2 :: trb2) = Some s2 ->
+  SystemFault.fault_free sc2 System.init (tra2 ++ System.ESummary p2 res2 miss2 :: trb2) = true ->
+  miss1 = [] /\ miss2 = [] /\ (forall r, In r res1 <-> In r res2).
+Proof. exact SystemOutcome.final_results_independent. Qed.
+Print Assumptions c03_final_results_independent.
